@@ -15,6 +15,8 @@ import (
 	"go/token"
 	"go/types"
 	"reflect"
+	"sort"
+	"strings"
 	"unsafe"
 
 	"golang.org/x/tools/go/ssa"
@@ -50,17 +52,18 @@ func makeNamedType(name string, underlying types.Type) *types.Named {
 }
 
 func makeReflectValue(t types.Type, v value) value {
-	return structure{rtype{t}, v}
+	return structure{rtype{t}, v, nil}
 }
 
 // Given a reflect.Value, returns its rtype.
 func rV2T(v value) rtype {
-	return v.(structure)[0].(rtype)
+	r, _ := v.(structure)[0].(rtype)
+	return r
 }
 
 // Given a reflect.Value, returns the underlying interpreter value.
 func rV2V(v value) value {
-	return v.(structure)[1]
+	return rvGet(v)
 }
 
 // makeReflectType boxes up an rtype in a reflect.Type interface.
@@ -124,7 +127,60 @@ func ext۰reflect۰rtype۰NumIn(fr *frame, args []value) value {
 
 func ext۰reflect۰rtype۰NumMethod(fr *frame, args []value) value {
 	// Signature: func (t reflect.rtype) int
-	return fr.i.prog.MethodSets.MethodSet(args[0].(rtype).t).Len() // beware: falsely reports generic methods
+	return len(exportedMethods(fr.i, args[0].(rtype).t))
+}
+
+// exportedMethods lists the exported methods of t sorted by name, which is
+// the numbering reflect.Type.Method uses.
+func exportedMethods(i *interpreter, t types.Type) []*types.Selection {
+	if it, ok := t.Underlying().(*types.Interface); ok {
+		_ = it
+	}
+	mset := i.prog.MethodSets.MethodSet(t)
+	var out []*types.Selection
+	for k := 0; k < mset.Len(); k++ {
+		if sel := mset.At(k); sel.Obj().Exported() {
+			out = append(out, sel)
+		}
+	}
+	sort.Slice(out, func(a, b int) bool { return out[a].Obj().Name() < out[b].Obj().Name() })
+	return out
+}
+
+func reflectTypeString(t types.Type) string {
+	s := types.TypeString(t, func(p *types.Package) string { return p.Name() })
+	return strings.ReplaceAll(s, "interface{", "interface {")
+}
+
+func ext۰reflect۰rtype۰Method(fr *frame, args []value) value {
+	// Signature: func (t reflect.rtype, i int) reflect.Method
+	t := args[0].(rtype).t
+	ms := exportedMethods(fr.i, t)
+	k := args[1].(int)
+	if k < 0 || k >= len(ms) {
+		panic(targetPanic{iface{types.Typ[types.String], "reflect: Method index out of range"}})
+	}
+	sel := ms[k]
+	sig := sel.Type().(*types.Signature)
+	var ft types.Type = sig
+	var fv value
+	if _, isIface := t.Underlying().(*types.Interface); !isIface {
+		// the method of a concrete type takes the receiver as its first argument
+		params := []*types.Var{types.NewParam(token.NoPos, nil, "", t)}
+		for j := 0; j < sig.Params().Len(); j++ {
+			params = append(params, sig.Params().At(j))
+		}
+		ft = types.NewSignatureType(nil, nil, nil, types.NewTuple(params...), sig.Results(), sig.Variadic())
+		fv = fr.i.prog.MethodValue(sel)
+	}
+	pkgPath := ""
+	return structure{
+		sel.Obj().Name(),
+		pkgPath,
+		makeReflectType(rtype{ft}),
+		makeReflectValue(ft, fv),
+		k,
+	}
 }
 
 func ext۰reflect۰rtype۰NumOut(fr *frame, args []value) value {
@@ -145,7 +201,7 @@ func ext۰reflect۰rtype۰Size(fr *frame, args []value) value {
 
 func ext۰reflect۰rtype۰String(fr *frame, args []value) value {
 	// Signature: func (t reflect.rtype) string
-	return args[0].(rtype).t.String()
+	return reflectTypeString(args[0].(rtype).t)
 }
 
 func ext۰reflect۰New(fr *frame, args []value) value {
@@ -340,7 +396,7 @@ func ext۰reflect۰Value۰NumField(fr *frame, args []value) value {
 
 func ext۰reflect۰Value۰NumMethod(fr *frame, args []value) value {
 	// Signature: func (reflect.Value) int
-	return fr.i.prog.MethodSets.MethodSet(rV2T(args[0]).t).Len()
+	return len(exportedMethods(fr.i, rV2T(args[0]).t))
 }
 
 func ext۰reflect۰Value۰Pointer(fr *frame, args []value) value {
@@ -542,6 +598,7 @@ func initReflect(i *interpreter) {
 		rV.SetUnderlying(types.NewStruct([]*types.Var{
 			types.NewField(token.NoPos, r.Pkg, "t", tEface, false), // a lie
 			types.NewField(token.NoPos, r.Pkg, "v", tEface, false),
+			types.NewField(token.NoPos, r.Pkg, "a", tEface, false), // address and read-only flag (reflect2.go)
 		}, nil))
 	  })
 	}
@@ -555,6 +612,7 @@ func initReflect(i *interpreter) {
 		"NumField":  newMethod(i.reflectPackage, rtypeType, "NumField"),
 		"NumIn":     newMethod(i.reflectPackage, rtypeType, "NumIn"),
 		"NumMethod": newMethod(i.reflectPackage, rtypeType, "NumMethod"),
+		"Method":    newMethod(i.reflectPackage, rtypeType, "Method"),
 		"NumOut":    newMethod(i.reflectPackage, rtypeType, "NumOut"),
 		"Out":       newMethod(i.reflectPackage, rtypeType, "Out"),
 		"Size":      newMethod(i.reflectPackage, rtypeType, "Size"),
